@@ -121,9 +121,11 @@ def replay(hist, vpc, universe, variant, pooling):
             w.begin(SEGS[(variant + len(evs)) % len(SEGS)])
         try:
             if client[0] is None:
+                # (one execution in four talks TLS: the address kind that use_vpc selects does not depend on that)
+                tls = {"tls_context": w.net.tls_context()} if variant % 4 == 3 else {}
                 client[0] = AWSElastiCacheHashClient(CFG_HOST + ":11211", socket_module=w.net, use_vpc=vpc, retry_attempts=0,
                                                      retry_timeout=1, dead_timeout=5, use_pooling=pooling, timeout=2,
-                                                     connect_timeout=2, default_noreply=False)
+                                                     connect_timeout=2, default_noreply=False, **tls)
             else:
                 client[0].reconfigure_nodes()
             outcome = "ok"
